@@ -17,12 +17,38 @@ pub fn all_ge_lit<S: Data<Elem = A>, A: Float>(d: ArrayBase<S, Ix1>, num: i64, d
     requires den > 0
     ensures r == forall|i: int| 0 <= i < d.v().len() ==> #[trigger] d.v()[i] >= (num as real) / (den as real)
 { unimplemented!() }
+// rule I6: the closure pipelines `polys.iter().map(|poly| poly.mat.view()).collect()` / `.bias.view()` of intersection_n are these helpers: the views of the parts, in order
+#[verifier::external_body]
+pub fn mat_views<'a, D: Data<Elem = A>, A: Float>(polys: &'a [AffFuncBase<PolytopeT, D>]) -> (r: Vec<ArrayView2<'a, A>>)
+    ensures r@.len() == polys@.len(),
+        forall|k: int| 0 <= k < polys@.len() ==> (#[trigger] r@[k]).m() == polys@[k].mat.m() && r@[k].nrows() == polys@[k].mat.nrows() && r@[k].ncols() == polys@[k].mat.ncols()
+{ unimplemented!() }
+#[verifier::external_body]
+pub fn bias_views<'a, D: Data<Elem = A>, A: Float>(polys: &'a [AffFuncBase<PolytopeT, D>]) -> (r: Vec<ArrayView1<'a, A>>)
+    ensures r@.len() == polys@.len(), forall|k: int| 0 <= k < polys@.len() ==> (#[trigger] r@[k]).v() == polys@[k].bias.v()
+{ unimplemented!() }
+// ndarray::concatenate(Axis(0), &[views]) (ASSUMED library contract): Err iff the list is empty or the column counts differ; otherwise the rows of the operands in order
+pub struct ShapeError { _p: () }
+impl std::fmt::Debug for ShapeError { #[verifier::external_body] fn fmt(&self, f: &mut std::fmt::Formatter<'_>) -> std::fmt::Result { unimplemented!() } }
+#[verifier::external_body]
+pub fn nd_concatenate2<'a, A>(axis: Axis, arrays: &[ArrayView2<'a, A>]) -> (r: Result<Array2<A>, ShapeError>)
+    requires axis.0 == 0
+    ensures r is Ok <==> arrays@.len() > 0 && (forall|k: int| 0 <= k < arrays@.len() ==> (#[trigger] arrays@[k]).ncols() == arrays@[0].ncols()),
+        r matches Ok(out) ==> out.ncols() == arrays@[0].ncols() && out.m() == cat_rows(Seq::new(arrays@.len(), |k: int| arrays@[k].m()), arrays@.len() as int)
+{ unimplemented!() }
+#[verifier::external_body]
+pub fn nd_concatenate1<'a, A>(axis: Axis, arrays: &[ArrayView1<'a, A>]) -> (r: Result<Array1<A>, ShapeError>)
+    requires axis.0 == 0
+    ensures r is Ok <==> arrays@.len() > 0,
+        r matches Ok(out) ==> out.v() == cat_vals(Seq::new(arrays@.len(), |k: int| arrays@[k].v()), arrays@.len() as int)
+{ unimplemented!() }
 
 //@item src/linalg/affine.rs | struct AffFuncBase
 //@item src/linalg/affine.rs | struct FunctionT
 //@item src/linalg/affine.rs | struct PolytopeT
 type AffFuncG<A> = AffFuncBase<FunctionT, OwnedRepr<A>>;
 type PolytopeG<A> = AffFuncBase<PolytopeT, OwnedRepr<A>>;
+//@include prelude/cat_spec.rs
 
 
 // ---- spec vocabulary: an AffFuncBase read as a function x |-> M x + b, or as a polytope {x | M x <= b}
@@ -616,6 +642,70 @@ impl<D: Data<Elem = A>, A: Float + LinalgScalar> AffFuncBase<PolytopeT, D> {
                         if i < n1 { assert((m1 + m2)[i] == m1[i]); assert(dotp(m1[i], x, x.len() as int) <= b1[i]); }
                         else { assert((m1 + m2)[i] == m2[i - n1]); assert(dotp(m2[i - n1], x, x.len() as int) <= b2[i - n1]); }
                     }
+                }
+            }
+        }
+//@end
+
+//@fn src/linalg/affine.rs | impl<D: Data<Elem = A>, A: Float + LinalgScalar> AffFuncBase<PolytopeT, D> | intersection_n
+//@bodysub polys.is_empty() => polys.len() == 0
+//@bodysub polys.iter() .map(|poly| poly.mat.view()) .collect(); => mat_views(polys);
+//@bodysub polys .iter() .map(|poly| poly.bias.view()) .collect(); => bias_views(polys);
+//@bodysub ndarray::concatenate(Axis(0), mat_view.as_slice()) => nd_concatenate2(Axis(0), mat_view.as_slice())
+//@bodysub ndarray::concatenate(Axis(0), bias_view.as_slice()) => nd_concatenate1(Axis(0), bias_view.as_slice())
+//@spec
+    // (the two panics "mismatch in dimensions" are unreachable exactly under this precondition)
+    requires forall|k: int| 0 <= k < polys@.len() ==> (#[trigger] polys@[k]).ok() && polys@[k].mat.ncols() == dim
+    ensures r.ok(), r.mat.ncols() == dim,
+        // the rows of the parts, in order
+        polys@.len() > 0 ==> r.mat.m() == cat_rows(part_ms(polys@), polys@.len() as int) && r.bias.v() == cat_vals(part_bs(polys@), polys@.len() as int),
+        // x in the result  <=>  x in every part
+        forall|x: V| x.len() == dim ==> (#[trigger] r.sat(x) <==> forall|k: int| 0 <= k < polys@.len() ==> (#[trigger] polys@[k]).sat(x)),
+        // a point the result tolerates (Polytope::contains) is tolerated by every part
+        forall|w: V| #[trigger] tol_sat(r.mat.m(), r.bias.v(), w) ==> forall|k: int| 0 <= k < polys@.len() ==> tol_sat((#[trigger] polys@[k]).mat.m(), polys@[k].bias.v(), w),
+//@hint start
+        broadcast use axiom_array2_shape;
+        let ghost ms = part_ms(polys@);
+        let ghost bs = part_bs(polys@);
+        let ghost n = polys@.len() as int;
+        proof { assert(parts_fit(ms, bs)); }
+//@hint after let mat_concat =
+        proof {
+            assert(Seq::new(mat_view@.len(), |k: int| mat_view@[k].m()) =~= ms);
+            assert forall|k: int| 0 <= k < mat_view@.len() implies (#[trigger] mat_view@[k]).ncols() == mat_view@[0].ncols() by { assert(polys@[k].mat.ncols() == dim); assert(polys@[0].mat.ncols() == dim); }
+        }
+//@hint after let bias_concat =
+        proof { assert(Seq::new(bias_view@.len(), |k: int| bias_view@[k].v()) =~= bs); }
+//@hint end
+        proof {
+            lemma_cat_len(ms, bs, n);
+            assert(mat.m() == cat_rows(ms, n) && bias.v() == cat_vals(bs, n));
+            assert forall|x: V| x.len() == dim implies
+                ((forall|i: int| 0 <= i < mat.nrows() ==> dotp(#[trigger] mat.m()[i], x, x.len() as int) <= bias.v()[i]) <==> forall|k: int| 0 <= k < polys@.len() ==> (#[trigger] polys@[k]).sat(x)) by {
+                let f = sat_row_fn(x);
+                lemma_cat_rows_all(ms, bs, n, f);
+                assert forall|k: int| 0 <= k < n implies ((#[trigger] polys@[k]).sat(x) <==> rows_all(ms[k], bs[k], f)) by {
+                    if polys@[k].sat(x) { assert forall|i: int| 0 <= i < ms[k].len() implies #[trigger] f(ms[k][i], bs[k][i]) by { assert(dotp(polys@[k].mat.m()[i], x, x.len() as int) <= polys@[k].bias.v()[i]); } }
+                    if rows_all(ms[k], bs[k], f) { assert forall|i: int| 0 <= i < polys@[k].mat.nrows() implies dotp(#[trigger] polys@[k].mat.m()[i], x, x.len() as int) <= polys@[k].bias.v()[i] by { assert(f(ms[k][i], bs[k][i])); } }
+                }
+                if forall|i: int| 0 <= i < mat.nrows() ==> dotp(#[trigger] mat.m()[i], x, x.len() as int) <= bias.v()[i] {
+                    assert forall|i: int| 0 <= i < mat.m().len() implies #[trigger] f(mat.m()[i], bias.v()[i]) by { assert(dotp(mat.m()[i], x, x.len() as int) <= bias.v()[i]); }
+                    assert(rows_all(mat.m(), bias.v(), f));
+                    assert forall|k: int| 0 <= k < polys@.len() implies (#[trigger] polys@[k]).sat(x) by { assert(rows_all(ms[k], bs[k], f)); }
+                }
+                if forall|k: int| 0 <= k < polys@.len() ==> (#[trigger] polys@[k]).sat(x) {
+                    assert forall|k: int| 0 <= k < n implies rows_all(#[trigger] ms[k], bs[k], f) by { assert(polys@[k].sat(x)); }
+                    assert(rows_all(mat.m(), bias.v(), f));
+                    assert forall|i: int| 0 <= i < mat.nrows() implies dotp(#[trigger] mat.m()[i], x, x.len() as int) <= bias.v()[i] by { assert(f(mat.m()[i], bias.v()[i])); }
+                }
+            }
+            assert forall|w: V| #[trigger] tol_sat(mat.m(), bias.v(), w) implies forall|k: int| 0 <= k < polys@.len() ==> tol_sat((#[trigger] polys@[k]).mat.m(), polys@[k].bias.v(), w) by {
+                let f = tol_row_fn(w);
+                lemma_cat_rows_all(ms, bs, n, f);
+                lemma_tol_rows_all(mat.m(), bias.v(), w);
+                assert forall|k: int| 0 <= k < polys@.len() implies tol_sat((#[trigger] polys@[k]).mat.m(), polys@[k].bias.v(), w) by {
+                    assert(rows_all(ms[k], bs[k], f));
+                    lemma_tol_rows_all(ms[k], bs[k], w);
                 }
             }
         }
